@@ -170,7 +170,7 @@ def hSysU : Handler := fun impl => do
     | none, some (cr, _) => (cfg.build cr.internal).isSome
     | _, _ => false
   let cls := ",".intercalate (
-    (if fallbackTaken ∧ req.body ≠ [] then ["C03-a"] else []) ++
+
     (if copyBuildOnly then ["C20-a"] else []) ++
     (match rr with | .panicked => ["C05-b"] | _ => []))
   let oracle :=
